@@ -491,6 +491,26 @@ def patched(sched: Scheduler, backend_factory: Callable[[str], Any], shared_rloc
         else:
             saved["sleep"](_secs)
 
+    import datashard.file_lock as fl
+
+    class _FcntlProxy:
+        """datashard.file_lock's view of fcntl: with `sched.fine_locks`, a non-blocking exclusive flock attempt is a
+        scheduling point of its own, BETWEEN the open of the lock file and the flock (flock locks the inode the open
+        returned, not the path: what happens to the path in between matters)."""
+
+        def __init__(self, real: Any):
+            self._real = real
+
+        def __getattr__(self, name: str) -> Any:
+            return getattr(self._real, name)
+
+        def flock(self, fd: Any, flags: int) -> Any:
+            if getattr(sched, "fine_locks", False) and sched.me() is not None and (flags & self._real.LOCK_EX) and (flags & self._real.LOCK_NB):
+                sched.yield_point("LockFlock", "dlock")
+            return self._real.flock(fd, flags)
+    saved["fl_fcntl"] = getattr(fl, "fcntl", None)
+    if saved["fl_fcntl"] is not None:
+        fl.fcntl = _FcntlProxy(saved["fl_fcntl"])
     saved["get_fs"] = dops.DataFileManager._get_arrow_filesystem
     dops.DataFileManager._get_arrow_filesystem = lambda self: None      # never build a real pyarrow S3 filesystem
     sb.create_storage_backend = factory
@@ -515,3 +535,5 @@ def patched(sched: Scheduler, backend_factory: Callable[[str], Any], shared_rloc
         dops.DataFileManager.write_data_file = saved["write_data_file"]
         dops.DataFileManager.open_parquet_source = saved["open_parquet_source"]
         dops.DataFileManager._get_arrow_filesystem = saved["get_fs"]
+        if saved["fl_fcntl"] is not None:
+            fl.fcntl = saved["fl_fcntl"]
